@@ -706,12 +706,25 @@ impl Evidence {
         let known = load_known(&self.property);
         let samples: Vec<Value> = sample_idx.iter().filter(|i| (**i as u64) < res.evaluated).map(|i| json!({"grid": name, "point": point_json(*i)})).collect();
         self.add_grid(name, res.evaluated, res.evaluated, rule, samples, &res.counters);
+        if std::env::var("WWMC_DEBUG").is_ok() {
+            eprintln!("grid {}: violations per class {:?}", name, res.class_totals);
+            if std::env::var("WWMC_KEEP_ALL").is_ok() {
+                for (i, v) in res.violations.iter() {
+                    eprintln!("VIOL {} [{}] {} :: {}", v.oracle, v.sig, point_json(*i), v.detail);
+                }
+            }
+        }
+        // known findings are counted from the uncapped per-class totals
+        for ((oracle, sig), n_class) in res.class_totals.iter() {
+            if let Some(k) = known.iter().find(|k| &k.oracle == oracle && (&k.sig == sig || k.sig == "*")) {
+                let e = self.known.entry(k.id.clone()).or_insert((0, k.what.clone()));
+                e.0 += *n_class;
+            }
+        }
         let mut written = 0;
         'outer: for (i, v) in res.violations.iter() {
             for k in &known {
                 if k.oracle == v.oracle && (k.sig == v.sig || k.sig == "*") {
-                    let e = self.known.entry(k.id.clone()).or_insert((0, k.what.clone()));
-                    e.0 += 1;
                     continue 'outer;
                 }
             }
